@@ -31,8 +31,11 @@ def bounds(tier):
     return {"failfast": 8, "collecting": 6, "wide_failfast": 6, "wide_collecting": 4}
 
 
-def _native_outcome(rule_name, seq, collecting):
-    """Run the real, un-interpreted code. Returns ('accept'|'reject'|'exception:<T>', codes)."""
+def _native_outcome(rule_name, seq, collecting, warmup=()):
+    """Run the real, un-interpreted code. Returns ('accept'|'reject'|'exception:<T>', codes).
+    warmup: modes ('coll'/'ff') of calls made on the same node first (from pristine process state)."""
+    from vlib import stateguard
+    stateguard.restore()
     from metapype.eml import rule as R
     from metapype.eml.exceptions import ChildNotAllowedError, MinOccurrenceUnmetError, MaxOccurrenceExceededError
     from metapype.model.node import Node
@@ -43,10 +46,22 @@ def _native_outcome(rule_name, seq, collecting):
         parent.add_attribute(k, v)
     for i, nm in enumerate(seq):
         parent.add_child(Node(nm, id="c%d" % i))
-    r = R.Rule(rule_name)
+    from metapype.eml import validate as _V
+    use_node = emlctx.element_for_rule(rule_name) is not None
+
+    def _call(e):
+        if use_node:
+            _V.node(parent, e)
+        else:
+            R.Rule(rule_name).validate_rule(parent, e)
+    for mode in warmup:
+        try:
+            _call([] if mode == "coll" else None)
+        except Exception:
+            pass
     errs = [] if collecting else None
     try:
-        r.validate_rule(parent, errs)
+        _call(errs)
     except (ChildNotAllowedError, MinOccurrenceUnmetError, MaxOccurrenceExceededError) as e:
         if collecting:
             return "exception:%s (raised although an error list was supplied)" % type(e).__name__, []
@@ -82,6 +97,11 @@ def spec_verdict(rule_name, seq):
 def judge_native(rule_name, seq, collecting):
     """Compare the real code with the specification on one concrete sequence. '' if fine, else description."""
     out, codes = _native_outcome(rule_name, seq, collecting)
+    for wu in (("coll",), ("coll", "ff"), ("ff", "coll")):
+        out2, _ = _native_outcome(rule_name, seq, collecting, wu)
+        if out2 != out:
+            return "%s: children %r: %s validation %ss when called first but %ss after the calls %r on the same node (state leaks between calls)" % (
+                rule_name, seq, "collecting" if collecting else "fail-fast", out, out2, list(wu))
     sv = spec_verdict(rule_name, seq)
     if out.startswith("exception"):
         return "%s %s mode: children %r -> %s escapes" % (rule_name, "collecting" if collecting else "fail-fast", seq, out)
@@ -112,6 +132,8 @@ def encode(job):
     el = emlctx.element_for_rule(rule_name)
     st = nodeenc.Setup(rule_name, element=el, content="valid", attrs="valid", nsym_children=L, collecting=collecting, seed=sd)
     st.prefix = prefix
+    history = len(job) > 5 and job[5] == "history"
+    st.warmup = (["coll", "ff"] if collecting else ["coll"]) if history else []
     try:
         view, h = nodeenc.run(st, max_paths=PATH_CAP, budget_s=PATH_BUDGET)
     except Unsupported as e:
@@ -164,6 +186,8 @@ def encode(job):
         "rejects_member": zand(lo_acc, znot(accept)),
         "foreign_failure": other,
         "neither_accept_nor_reject": znot(zor(accept, reject, other)),
+        "call_history_dependence": zor(*([z3.Xor(view.marks["w%d_accept" % i], accept) for i in range(len(st.warmup))] +
+                                         [view.marks["w%d_foreign" % i] for i in range(len(st.warmup))])),
         "path_coverage_hole": view.coverage_hole,
         "unwinding": zor(*view.incomplete),
         "overflow": zor(*view.overflow),
@@ -289,6 +313,11 @@ def run(tier, only=None):
                     jobs.append((rn, L, coll, sd, tuple(w)))
                     ncover += 1
     rep.extra["state_cover_encodings"] = ncover
+    # call-history dependence: short sequences validated again after earlier calls on the same node (state leaking between calls)
+    for rn in rules:
+        for coll in (False, True):
+            for L in ((1, 2) if tier == "quick" else (1, 2, 3)):
+                jobs.append((rn, L, coll, sd, (), "history"))
     jobs.sort(key=lambda j: -j[1] - (3 if j[0] in WIDE else 0) - len(j[4]) if len(j) > 4 else -j[1] - (3 if j[0] in WIDE else 0))
     rep.bounds = dict(b, note="child sequences of length 0..N per rule and mode; names range over the rule's child "
                               "names plus a foreign name; wide rules: %s; plus the state cover: for every state of the reference automaton whose "
@@ -308,7 +337,8 @@ def run(tier, only=None):
     per_rule_accept = {}
     for status, job, r in common.pool_map(encode, jobs):
         rn, L, coll = job[0], job[1], job[2]
-        tag = "%s L=%d %s%s" % (rn, L, "collecting" if coll else "fail-fast", (" after %r" % (list(job[4]),)) if len(job) > 4 else "")
+        tag = "%s L=%d %s%s%s" % (rn, L, "collecting" if coll else "fail-fast", (" after %r" % (list(job[4]),)) if len(job) > 4 and job[4] else "",
+                                  " [call history]" if len(job) > 5 else "")
         if status != "ok":
             rep.mismatch.append("%s: engine crashed: %s" % (tag, r[:300]))
             continue
@@ -353,7 +383,7 @@ def run(tier, only=None):
                     if not m:
                         rep.mismatch.append("%s: encoding says %s for %r, native run says %s" % (tag, expect, tw[k], out))
         if tw.get("reach_reject") == "sat" and tw.get("reach_accept") == "sat":
-            rep.nontrivial.add((rn, L, coll, tuple(job[4]) if len(job) > 4 else ()))
+            rep.nontrivial.add((rn, L, coll, tuple(job[4]) if len(job) > 4 else (), len(job) > 5))
         if L >= 2:
             rep.sample({"rule": rn, "L": L, "mode": "collecting" if coll else "fail-fast", "verdicts": r["verdicts"],
                         "accepted_example": tw.get("reach_accept_model"), "rejected_example": tw.get("reach_reject_model"),
